@@ -93,6 +93,9 @@ def judge(case, out, expects, sib):
         TP.check_c10(res, ex)
     for ex in sib:
         TP.check_direction(res, ex, "callback.sibling")
+    late = inproc.late_wakeups(out.sched)
+    if late:
+        raise Violation("callback.lost-wakeup", f"a blocked call was never woken, it only returned by its 60 s timeout: {late}")
 
 
 def labels_of(case):
